@@ -40,6 +40,10 @@ def run(chk):
     chk.rule('C01-R10', 'callee util.cumsum: out[0] is the carried offset, every element added once before its store, total returned (same obligations as C19-R2/R3)', 10)
     chk.assume('stored npstart/npout (and _merge) address this halo\'s records in its own superslab files (file contents)')
     chk.assume('astropy column objects alias the table storage (in-place masked store is seen by the later sum)')
+    chk.rule('C01-R11', 'the superslab numbers, cleaning files and particle files are paired with the halo files position by position: no list on that path is sorted, '
+                        'made unique or otherwise re-ordered (obligations C03-R2)', 4)
+    from . import c03
+    chk.import_from(c03.run, 'C03', ('C03-R2',), 'C01-R11')
     offsets(chk)
     callee(chk)
     call_site(chk)
